@@ -130,7 +130,10 @@ def edit_cookie(rng, c, n, other):
         return k, rng.choice(['"', '""', '']) + c + rng.choice(['"', '"""'])
     if k == 'ts-lenient':
         ts = c[n:n + 8]
-        v = int(ts, 16)
+        try:
+            v = int(ts, 16)
+        except ValueError:
+            return 'append', c + '!'
         forms = ['%+08x' % v, ' %07x' % v, '%07x ' % v, '0x%06x' % v, '0X%06X' % v, '\t%06x\n' % v, '%07x_' % v,
                  '_%07x' % v, '0_%06x' % v, '0x_%05x' % v, '%x' % v, ' +0x%04x' % v, '%08x' % (v + 1), '0b%06x' % v,
                  '%03x__%03x' % (v >> 12, v & 0xfff), '%03x_%04x' % (v >> 16, v & 0xffff)]
